@@ -807,6 +807,21 @@ fn shard(ctx: &Ctx, s: usize, n_random: u64, thorough: bool, rep: &mut Report) {
     let _ = tabs.iter().map(|t| t.name).count();
 }
 
+/// One random history from one generator stream (the coverage-guided stage drives this from a decision tape).
+pub fn case(ctx: &Ctx, shard: usize, index: u64, rep: &mut Report) {
+    let tabs = tables();
+    let mut rng = Rng::new(ctx.seed ^ 0xC14C, ((shard as u64) << 40) | index);
+    let src = random_source(&mut rng, true);
+    let nops = 5 + rng.below(120) as usize;
+    let ops: Vec<Op> = (0..nops).map(|_| random_op(&mut rng, 0, tabs.len(), true)).collect();
+    let interrupts = if rng.chance(1, 4) { 1000 * (2 + rng.below(4) as usize) } else { 0 };
+    let chunk = 1 + rng.below(5) as usize + interrupts;
+    let phase = rng.below(8) as u32;
+    let (lock, pan) = run_history(&src, chunk, phase, &ops, &tabs);
+    absorb(rep, &lock, pan, &src, &|| format!("phase={} chunk={} {:?}", phase, chunk, ops), &|| crate::mon::coords("C14", ctx, shard, index));
+    rep.count("random_histories");
+}
+
 pub fn replay_shard(ctx: &Ctx, s: usize, rep: &mut Report) {
     shard(ctx, s, ctx.n(12_000, 200_000), ctx.tier == Tier::Thorough, rep);
 }
